@@ -222,6 +222,7 @@ type worldCfg struct {
 	Fee        string
 	Settle     bool
 	MaxHosts   int
+	wrap       func(store.Store) store.Store // optional interposer between the services and the driver
 }
 
 func newWorld(cfg worldCfg) *world {
@@ -248,7 +249,11 @@ func newWorld(cfg worldCfg) *world {
 		return t
 	})
 	w.mgr = m
-	w.pool = pool.New(w.st.Store, m)
+	if cfg.wrap != nil {
+		w.pool = pool.New(cfg.wrap(w.st.Store), m)
+	} else {
+		w.pool = pool.New(w.st.Store, m)
+	}
 	w.pool.MaxRequestHosts = cfg.MaxHosts
 	w.pay = &payment.PaymentService{NonceStore: w.st.Store, AccountStore: w.st.Store, BalanceStore: w.bstore}
 	if cfg.WMin != nil {
@@ -295,7 +300,11 @@ func (w *world) Close() {
 	w.st.Destroy()
 }
 
+var nonceMu sync.Mutex
+
 func (w *world) nextNonce() int64 {
+	nonceMu.Lock()
+	defer nonceMu.Unlock()
 	n := time.Now().UnixNano()
 	if n <= w.nonce {
 		n = w.nonce + 1
@@ -440,6 +449,18 @@ func (w *world) connect(name string, host bool, kind string, payout string, uriO
 		return &resp, err
 	}
 	return w.pool.Connect(context.Background(), sig, id, nonce, req)
+}
+
+// connectOn registers a host over a given connection.
+func (w *world) connectOn(hc *hostConn, name string) error {
+	id := nodeIDOf(name)
+	req := pool.ConnectRequest{VipnodeVersion: "verif", NodeInfo: userAgentFor("geth", true), NodeURI: "enode://" + id + "@10.4.4.4:30303"}
+	nonce := w.nextNonce()
+	sig := w.sign(keyFor(name), "vipnode_connect", id, nonce, req)
+	var resp pool.ConnectResponse
+	ctx, cancel := context.WithTimeout(context.Background(), 5*time.Second)
+	defer cancel()
+	return hc.cliSide.Call(ctx, &resp, "vipnode_connect", sig, id, nonce, req)
 }
 
 func peerInfos(ids []string) []ethnode.PeerInfo {
